@@ -35,7 +35,8 @@ GGInit == [alive |-> FALSE, closed |-> FALSE, mes |-> <<>>, def |-> "", up |-> {
 
 CurOf(g, n) == LET S == {i \in DOMAIN g.cur : g.cur[i].name = n} IN IF S = {} THEN "" ELSE g.cur[CHOOSE i \in S : TRUE].e
 
-NameBefore(a, b) == a = b \/ (a = "m1") \/ (a = "m2" /\ b # "m1") \/ (a = "m3" /\ b \notin {"m1", "m2"})
+\* order of sort.Strings over the names in use: "" (a legal MultiEndpoint name), m1, m2, m3
+NameBefore(a, b) == a = b \/ a = "" \/ (b # "" /\ ((a = "m1") \/ (a = "m2" /\ b # "m1") \/ (a = "m3" /\ b \notin {"m1", "m2"})))
 SortedNames(S) == LET RECURSIVE F(_)
                       F(T) == IF T = {} THEN <<>>
                               ELSE LET x == CHOOSE y \in T : \A z \in T : NameBefore(y, z) IN <<x>> \o F(T \ {x})
@@ -96,7 +97,8 @@ GClauses(g, ev, g2) ==
   LET live == g.alive /\ ~g.closed
       isCfg == ev.op \in {"new", "update"} /\ ev.res \notin {"SKIPPED"}
       valid == ValidOpts(g, ev)
-      target == IF ev.name \in Names(g.mes) THEN ev.name ELSE g.def
+      \* an rpc event with name "" is a call whose context names no MultiEndpoint (not one that names the MultiEndpoint "")
+      target == IF ev.name # "" /\ ev.name \in Names(g.mes) THEN ev.name ELSE g.def
       expE == CurOf(g, target)
   IN
   { Cl("C15_a", ev.op = "rpc" /\ live /\ ev.res = "OK", ev.srv = expE),
